@@ -182,6 +182,24 @@ def search(chk, broken):
             chk.failures.append(Failure('monotone:humidity', 'density ratio does not fall with humidity', {'op': 'mono', 't': t, 'p': pr, 'h': h}))
         if pbc.Atmo(0, U.hPa(pr), U.Celsius(t), h * 100 if h * 100 > 1 else h).density_ratio != pbc.Atmo(0, U.hPa(pr), U.Celsius(t), (h * 100) / 100.0 if h * 100 > 1 else h).density_ratio:
             chk.failures.append(Failure('humidity-convention', 'percent and fraction differ', {'op': 'hum', 'h': h}))
+        # a station asked, edited through the humidity setter and asked again predicts what a FRESH station with its present
+        # conditions predicts (self-consistent with its own current state, whatever it was asked before)
+        st = pbc.Atmo(U.Foot(rng.uniform(0, 9000)), U.hPa(pr), U.Celsius(t), h)
+        zq = [rng.uniform(-1000, 30000) for _ in range(3)] + [(st.altitude >> U.Foot) + 10.0]
+        for zz in zq:
+            st.get_density_factor_and_mach_for_altitude(zz)
+        for h_new in (rng.uniform(0, 1), 0.0, rng.uniform(1, 100)):
+            st.humidity = h_new
+            fresh = pbc.Atmo(st.altitude, st.pressure, st.temperature, h_new)
+            evals += 1
+            for zz in zq:
+                got_, exp_ = st.get_density_factor_and_mach_for_altitude(zz), fresh.get_density_factor_and_mach_for_altitude(zz)
+                if got_ != exp_:
+                    chk.failures.append(Failure('stale-after-humidity', f'a station at {st.altitude >> U.Foot:.0f} ft asked about {zz:.1f} ft, then set to humidity {h_new!r}, '
+                                                                        f'predicts {got_} there; a fresh station with the same present conditions predicts {exp_}',
+                                                {'op': 'history', 'station_ft': st.altitude >> U.Foot, 'p_hPa': pr, 't_C': t, 'h0': h, 'h_new': h_new, 'z_ft': zz,
+                                                 'observed': list(got_), 'expected': list(exp_)}))
+                    break
         v = pbc.Vacuum(U.Foot(rng.uniform(0, 9000)))
         if any(v.get_density_factor_and_mach_for_altitude(zz)[0] != 0 for zz in (0.0, z, z2, 1e5)):
             chk.failures.append(Failure('vacuum', 'vacuum density not zero', {'op': 'vacuum'}))
